@@ -97,6 +97,14 @@ try:
         shutil.copy(os.path.join(src, d), os.path.join(dst, os.path.basename(d)))
     if os.path.exists(os.path.join(src, "SEED", "notes.md")):
         shutil.copy(os.path.join(src, "SEED", "notes.md"), os.path.join(dst, "notes.md"))
+    if os.path.exists(os.path.join(dst, "meta.json")):
+        try:
+            prev = json.load(open(os.path.join(dst, "meta.json")))
+            for k in ("summary", "needs_to_manifest", "history", "what_was_run"):
+                if k in prev and k not in meta:
+                    meta[k] = prev[k]
+        except Exception:
+            pass
     json.dump(meta, open(os.path.join(dst, "meta.json"), "w"), indent=1)
     short = {k: meta[k] for k in ("name", "property", "demo_without_change", "demo_with_change", "changed_files", "detected_by")}
     short["unexpected_test_failures"] = meta["existing_tests"]["unexpected_failures"]
